@@ -34,15 +34,22 @@ package http1
 //@ ghost var closeSet bool
 //@ ghost var notRunningSeen bool
 //@ ghost var runningChecked bool
+// wantClose: the request or the response asked for the connection to be closed (ConnectionClose() answered true).
+//@ ghost var wantClose bool
 
 //@ func Server.Serve(s, c, conn) err
-//@   props C19, C18, C01, C03
-//@   requires phase == 0 && !rejecting && !closeSet && !notRunningSeen && !runningChecked
+//@   props C19, C18, C01, C03, C04
+//@   requires phase == 0 && !rejecting && !closeSet && !notRunningSeen && !runningChecked && !wantClose
+//@   ghostset after ConnectionClose!: wantClose = wantClose || result
+//@   assert @C04 before writeResponse: wantClose ==> closeSet
+//@   assert @C04 before ResetWithoutConn: !closeSet
+//@   assert @C04 before ResetWithoutConn: !wantClose
+//@   ghostset after ResetWithoutConn: wantClose = false
 //@   assert @C01 before ServeHTTP: phase == 0 && err == nil && !rejecting
 //@   ghostset after ServeHTTP: phase = 2
 //@   ghostset before writeErrorResponse: rejecting = true
-//@   ghostset after SetConnectionClose: closeSet = true
-//@   ghostset after SetCanonical: closeSet = closeSet || sameSlice(arg2, bytestr.StrClose)
+//@   ghostset after RequestContext.SetConnectionClose: closeSet = true
+//@   ghostset after ResponseHeader.SetCanonical: closeSet = closeSet || sameSlice(arg2, bytestr.StrClose)
 //@   ghostset after IsRunning: notRunningSeen = !result
 //@   ghostset after IsRunning#0: runningChecked = true
 //@   assert @C01 before writeResponse: (phase == 2 || rejecting) && phase != 3
@@ -71,7 +78,7 @@ package http1
 //@   top-ensures traceOpen == 0
 //@   loop 0:
 //@     invariant traceOpen == 0 && evDepth == 0 && !traceStarted
-//@     invariant phase == 0 && !rejecting && !closeSet
+//@     invariant phase == 0 && !rejecting && !closeSet && !wantClose
 //@     invariant @C18 !notRunningSeen && !runningChecked
 
 //@ func Server.Serve$1()
